@@ -690,7 +690,7 @@ def gen_cases(ctx):
 
 def run(ctx, lean):
     names = ['corr:variant', 'corr:errors', 'corr:normal-conditions', 'corr:conditional-distribution',
-             'corr:sample-plan']
+             'corr:sample-plan', 'tv:GaussCond']
     if lean is None:
         for nm in names:
             ctx.ob(nm, False, 'tie', 'driver unavailable')
@@ -777,6 +777,21 @@ def run(ctx, lean):
         ctx.ob(f'corr:{aspect}', not hit, 'tie',
                json.dumps({'case': where, 'diff': vc.jsonable(bad[1])}, default=str)[:580] if hit else
                f'{results[chosen][0]} cases vs {VARIANT_NAME[chosen]}')
+    # translation validation (T): the same requests answered from the definitions GENERATED from the source
+    # (lean/CopVerif/Gen/GaussCond.lean via tools/gen_gausscond.py) - real code vs generated model, same inputs
+    gen_bad, gen_pass = None, 0
+    for (spec, model, items, container, n, tags, res, rec, tab, draws) in obs:
+        reply = parse_reply(lean.ask(request(spec, model, items, container, ('gen', 'gen'), tab, n, draws)), spec['kind'])
+        bad = compare(spec, model, items, n, res, rec, reply)
+        if bad is not None and not tags['wellformed'] and res[0] == 'err':
+            bad = None
+        if bad is not None:
+            gen_bad = (bad, describe(spec, items, container, n, tags))
+            break
+        gen_pass += 1
+    ctx.ob('tv:GaussCond', gen_bad is None, 'tie',
+           f'{gen_pass} cases: real code = generated definitions' if gen_bad is None else
+           json.dumps({'case': gen_bad[1], 'aspect': gen_bad[0][0], 'diff': vc.jsonable(gen_bad[0][1])}, default=str)[:580])
     for (spec, model, items, container, n, tags, res, rec, tab, draws) in obs[:3]:
         ctx.sample({'columns': [str(x) for x in spec['labels']], 'dists': spec['dists'],
                     'conditions': [[str(k), v] for k, v in items], 'container': container, 'n': n,
